@@ -259,8 +259,13 @@ def check_times_bound(ctx, rule, k, site, target, lo, hi):
         q_lo, q_hi = arith(sl[1]), arith(sh[1])
         good = q_lo == ("/", ("w", "min"), (d, "max")) and q_hi == ("/", ("w", "max"), (d, "min")) and (arith(sl[2]), arith(sh[2])) == own
         # guard: umin >= 0, vmin >= 0, wmin >= 0 and dmin > 0
-        lits = set()
-        for case in tables.cond_cases(unlet_deep(cond), True):
+        # every way the guard can be true (each disjunct of its DNF) must establish all four facts: an `||` slipped
+        # into the conjunction lets the quotients be used with a negative operand or a zero divisor
+        need = {(("u", "min"), "Ge"), (("v", "min"), "Ge"), (("w", "min"), "Ge")}
+        cases = list(tables.cond_cases(unlet_deep(cond), True))
+        have_nonneg = have_div = bool(cases)
+        for case in cases:
+            lits = set()
             for l, pol in case:
                 ll = unlet_deep(l)
                 if ll[0] == "binop" and pol:
@@ -268,9 +273,8 @@ def check_times_bound(ctx, rule, k, site, target, lo, hi):
                     z = ll[3][0] == "lit" and "Pu128(0)" in str(ll[3][1])
                     if z and ll[1] in ("Ge", "Gt"):
                         lits.add((a, ll[1]))
-        need = {(("u", "min"), "Ge"), (("v", "min"), "Ge"), (("w", "min"), "Ge")}
-        have_nonneg = all(any(a == n[0] for a, o in lits) for n in need)
-        have_div = ((d, "min"), "Gt") in lits
+            have_nonneg = have_nonneg and all(any(a == n[0] for a, o in lits) for n in need)
+            have_div = have_div and ((d, "min"), "Gt") in lits
         good = good and have_nonneg and have_div
     ctx.expect(good, rule, k, site, "operand %s may be narrowed by quotients [wmin/%smax, wmax/%smin] only under the guard umin>=0, vmin>=0, wmin>=0, %smin>0 (else left unnarrowed); found [%s, %s]" % (target, d, d, d, show(unlet(lo), maxdepth=5)[:140], show(unlet(hi), maxdepth=5)[:140]))
 
